@@ -1,13 +1,10 @@
 //! Verification hooks, compiled only with `--cfg sv_parser_verif`.
 //!
 //! Nothing in here changes behaviour unless a simulator is installed on the
-//! calling thread (`install`) or a memo knob is turned (`set_capacity`,
-//! `set_flag_aware`). The default configuration reproduces the shipped one:
-//! FIFO memo of 1024 entries keyed by (parser name, input pointer, in_directive).
+//! calling thread (`install`). The packrat memo is not touched here: the
+//! verification build instruments it through the nom-packrat dependency.
 
-use crate::{AnyNode, RecursiveInfo};
 use std::cell::{Cell, RefCell};
-use std::collections::{HashSet, VecDeque};
 use std::io;
 use std::path::Path;
 use std::sync::Arc;
@@ -106,147 +103,7 @@ impl Drop for Scope {
 
 // -----------------------------------------------------------------------------
 
-/// Extra memo key handed over by the `packrat_parser` attribute in verification
-/// builds: the shipped `in_directive` component plus the span's left-recursion
-/// bookkeeping, which the shipped key ignores.
-#[derive(Clone, Copy, Debug, Eq, Hash, PartialEq)]
-pub struct Extra {
-    pub in_directive: bool,
-    pub info: RecursiveInfo,
-}
-
-type Key = (&'static str, *const u8, Extra);
-type InnerKey = (&'static str, *const u8, (bool, RecursiveInfo));
-
-#[derive(Clone, Copy, Debug, Default)]
-pub struct MemoStats {
-    pub gets: u64,
-    pub hits: u64,
-    pub misses: u64,
-    pub inserts: u64,
-    pub evictions: u64,
-    /// misses on a key that had been evicted before (the eviction changed what ran)
-    pub misses_after_evict: u64,
-    pub max_len: u64,
-}
-
-/// Same `get` / `insert` / `clear` surface as `nom_packrat::PackratStorage`,
-/// which it wraps; adds a run-time capacity, an optional flag-aware key and counters.
-pub struct Memo {
-    inner: nom_packrat::PackratStorage<AnyNode, (bool, RecursiveInfo)>,
-    capacity: Option<usize>,
-    flag_aware: bool,
-    stats: MemoStats,
-    // mirror of the FIFO queue, for the eviction probes only
-    queue: VecDeque<InnerKey>,
-    ghosts: HashSet<InnerKey>,
-}
-
-pub const SHIPPED_CAPACITY: usize = 1024;
-
-impl Memo {
-    pub fn new() -> Self {
-        Memo {
-            inner: nom_packrat::PackratStorage::new(Some(SHIPPED_CAPACITY)),
-            capacity: Some(SHIPPED_CAPACITY),
-            flag_aware: false,
-            stats: MemoStats::default(),
-            queue: VecDeque::new(),
-            ghosts: HashSet::new(),
-        }
-    }
-
-    fn inner_key(&self, key: &Key) -> InnerKey {
-        let (name, ptr, extra) = *key;
-        let info = if self.flag_aware && extra.info.get_ptr() == ptr {
-            // the flags are in force at this position: `recursive_parser` would
-            // consult them, so they are part of what the result depends on
-            extra.info
-        } else {
-            RecursiveInfo::new()
-        };
-        (name, ptr, (extra.in_directive, info))
-    }
-
-    pub fn get(&mut self, key: &Key) -> Option<&Option<(AnyNode, usize)>> {
-        let k = self.inner_key(key);
-        self.stats.gets += 1;
-        let ret = self.inner.get(&k);
-        if ret.is_some() {
-            self.stats.hits += 1;
-        } else {
-            self.stats.misses += 1;
-            if self.ghosts.contains(&k) {
-                self.stats.misses_after_evict += 1;
-            }
-        }
-        ret
-    }
-
-    pub fn insert(&mut self, key: Key, value: Option<(AnyNode, usize)>) {
-        let k = self.inner_key(&key);
-        self.stats.inserts += 1;
-        if let Some(size) = self.capacity {
-            // mirrors the eviction rule of PackratStorage::insert
-            if self.queue.len() > size - 1 {
-                if let Some(old) = self.queue.pop_front() {
-                    self.stats.evictions += 1;
-                    self.ghosts.insert(old);
-                }
-            }
-        }
-        self.queue.push_back(k);
-        if self.queue.len() as u64 > self.stats.max_len {
-            self.stats.max_len = self.queue.len() as u64;
-        }
-        self.inner.insert(k, value);
-    }
-
-    pub fn clear(&mut self) {
-        self.inner.clear();
-        self.queue.clear();
-        self.ghosts.clear();
-    }
-
-    pub fn len(&self) -> usize {
-        self.queue.len()
-    }
-}
-
-/// `None` = unbounded. `Some(0)` is refused (nom-packrat would underflow).
-pub fn set_capacity(capacity: Option<usize>) {
-    assert!(capacity != Some(0));
-    crate::PACKRAT_STORAGE.with(|m| {
-        let mut m = m.borrow_mut();
-        m.inner = nom_packrat::PackratStorage::new(capacity);
-        m.capacity = capacity;
-        m.queue.clear();
-        m.ghosts.clear();
-    });
-}
-
-pub fn set_flag_aware(on: bool) {
-    crate::PACKRAT_STORAGE.with(|m| {
-        let mut m = m.borrow_mut();
-        m.flag_aware = on;
-        let capacity = m.capacity;
-        m.inner = nom_packrat::PackratStorage::new(capacity);
-        m.queue.clear();
-        m.ghosts.clear();
-    });
-}
-
-pub fn memo_stats() -> MemoStats {
-    crate::PACKRAT_STORAGE.with(|m| m.borrow().stats)
-}
-
-pub fn reset_memo_stats() {
-    crate::PACKRAT_STORAGE.with(|m| m.borrow_mut().stats = MemoStats::default());
-}
-
-/// (directive stack depth, keyword-version stack depth, memo entries) left on this thread.
-pub fn residue() -> (usize, usize, usize) {
-    let (d, v) = crate::utils::verif_depths();
-    let m = crate::PACKRAT_STORAGE.with(|m| m.borrow().len());
-    (d, v, m)
+/// (directive stack depth, keyword-version stack depth) left on this thread.
+pub fn residue() -> (usize, usize) {
+    crate::utils::verif_depths()
 }
